@@ -159,6 +159,11 @@ def make_pred(task):
             if not ref or len(ref) > n:
                 ctx.skip("empty or more than n patterns")
                 return False
+            if any(len({tuple(nt) for nt in o}) < len(o) for P_ in ref for o in P_):
+                # an occurrence that lists the same (onset, midi) pair twice: the cardinality score divides the size of a SET
+                # intersection by the LENGTH of the list, so even an exact copy scores < 1 - the metric is not defined on it
+                ctx.skip("occurrence with a repeated note (degenerate for the cardinality score)")
+                return False
             size = len(ref) + 2
             want = {k: 1 for k in ["F", "P", "R", "F_est", "P_est", "R_est", "F_occ.5", "P_occ.5", "R_occ.5", "F_occ.75", "P_occ.75", "R_occ.75",
                                    "F_3", "P_3", "R_3", "FFP", "FFTP_est"]}
